@@ -497,6 +497,47 @@ def _collect_out(res, ex):
     return outs
 
 
+# ------------------------------------------------------------------------------------------------ C05: warm-up and collection scans
+def _buffer_add(ex, n, recv, a, k):
+    if len(a) != 8 or k:
+        fail(n, "buffer.add call form")
+    f = dict(zip(["t_obs", "t_next", "t_act", "t_rew", "t_done", "t_timeout", "t_ps", "t_nps"], [x.t for x in a]))
+    rec = "{| " + "; ".join(f"{k_} := {v}" for k_, v in f.items()) + " |}"
+    return Obj({"@name": Sc("O", f"(soa_add {recv.fields['@name'].t} {rec})")}, "buffer")
+
+
+def _offscan_bind(count_field):
+    b = _offstep_bind()
+    selfo = Obj({count_field: Z("(Z.of_nat n)"), "per_step": Prim(lambda ex, n, a, k: a[0] if len(a) == 1 and not k else fail(n, "per_step form"))}, "algo")
+    scope = {k[1:]: v for k, v in b.items() if k.startswith("@")}
+    m = _method("algorithm/off_policy.py", "AbstractOffPolicyAlgorithm", "step", selfo)
+    m.closure.scope = scope
+    selfo.fields["step"] = m
+
+    def on_step(ex, n, args, kwargs):
+        if len(args) != 1 or set(kwargs) != {"key"} or not isinstance(args[0], Obj):
+            fail(n, "on_step call form")
+        c = args[0].fields
+        return Sc("O", f"(cb_step {c['state'].t} {c['done'].t} {c['reward'].t} {kwargs['key'].t})")
+    out = {"self": selfo, "env": b["env"], "policy": b["policy"], "key": K("k"),
+           "step_state": Obj({"env_state": O("es"), "policy_state": O("ps"), "callback_state": O("cbs"),
+                              "buffer": Obj({"@name": O("buf")}, "buffer")}, "step_state"),
+           "callback": Obj({"on_step": Prim(on_step)}, "callback")}
+    out.update({k: v for k, v in b.items() if k.startswith("@")})
+    return out
+
+
+def _offscan_out(res, ex):
+    if not (isinstance(res, Obj) and set(res.fields) >= {"env_state", "policy_state", "buffer"}):
+        raise TranslateError("the scan no longer returns the off-policy step state")
+    return [("env_state", "S", term_of(res.fields["env_state"])), ("policy_state", "PS", term_of(res.fields["policy_state"])),
+            ("buffer", "@obuf PS O", term_of(res.fields["buffer"].fields["@name"]))]
+
+
+_OFFSCAN_PARAMS = ("{S PS O CB : Type} (n : nat) (E : env S Q O) (P : acpol PS Q O) (cb_step : CB -> bool -> Q -> kpath -> CB) "
+                   "(es : S) (ps : PS) (cbs : CB) (buf : @obuf PS O) (k : kpath)")
+
+
 def _step_out(res, ex):
     if not (isinstance(res, tuple) and len(res) == 6):
         raise TranslateError("step no longer returns (state, observation, reward, terminal, truncate, info)")
@@ -699,7 +740,11 @@ KERNELS = {
                        {"rows": recv, "last_value": a[0], "gae_lambda": a[1], "gamma": a[2]}, "gae_call") if len(a) == 3 and not k else fail(n, "GAE call form")}})],
     "C05": [Kernel("offstep", "algorithm/off_policy.py", "AbstractOffPolicyAlgorithm", "step", _offstep_bind,
                    "{S PS O CB : Type} (E : env S Q O) (P : acpol PS Q O) (es : S) (ps : PS) (cbs : CB) (k : kpath)",
-                   _offstep_out, carrier="Q", prims={"jnp.clip": Prim(_p_clip_space)})],
+                   _offstep_out, carrier="Q", prims={"jnp.clip": Prim(_p_clip_space)}),
+            Kernel("offwarm", "algorithm/off_policy.py", "AbstractOffPolicyAlgorithm", "collect_learning_starts", lambda: _offscan_bind("learning_starts"),
+                   _OFFSCAN_PARAMS, _offscan_out, carrier="Q", prims={"jnp.clip": Prim(_p_clip_space)}, obj_methods={"buffer": {"add": _buffer_add}}),
+            Kernel("offcollect", "algorithm/off_policy.py", "AbstractOffPolicyAlgorithm", "collect_rollout", lambda: _offscan_bind("num_steps"),
+                   _OFFSCAN_PARAMS, _offscan_out, carrier="Q", prims={"jnp.clip": Prim(_p_clip_space)}, obj_methods={"buffer": {"add": _buffer_add}})],
     "C01": [Kernel("step", "env/base_env.py", "AbstractEnvLike", "step",
                    lambda: {"self": env_obj("E"), "state": O("s"), "action": O("a"), "key": K("k")},
                    "{S A O : Type} (E : env S A O) (s : S) (a : A) (k : kpath)", _step_out, carrier="Q"),
@@ -832,7 +877,7 @@ def coq_text(pid, imports=()):
     return "\n".join(parts)
 
 
-IMPORTS = {"C19": ("Logging",), "C06": ("Replay",), "C01": ("Env",), "C13": ("Env",), "C04": ("Env", "OnPolicy"), "C05": ("Env", "OnPolicy"), "C20": ("Gait",)}
+IMPORTS = {"C19": ("Logging",), "C06": ("Replay",), "C01": ("Env",), "C13": ("Env",), "C04": ("Env", "OnPolicy"), "C05": ("Env", "OnPolicy", "Replay", "OffPolicy"), "C20": ("Gait",)}
 
 
 def generate(pid, coq_dir: Path):
